@@ -15,7 +15,7 @@ RULE = ('seeded charts, every host (plain, instrumented, queued, active object, 
 ASSUMPTIONS = ['no schedule dimension', 'reads are made right after start_at/each step, before any is_in/child_state query (the statement scopes the guarantee there)']
 PROBES = []
 PLAN = {
-  'quick': {'strata': {'reports': 6000}, 'wall_s': 90, 'chunk': 100, 'min_conclusive': 1000},
+  'quick': {'strata': {'reports': 6000}, 'wall_s': 300, 'chunk': 100, 'min_conclusive': 1000},
   'thorough': {'strata': {'reports': 150000}, 'wall_s': 900, 'chunk': 250, 'min_conclusive': 10000},
 }
 ORACLES = [co.check_state_reports]
